@@ -1,9 +1,10 @@
 """C06 — progress after the network heals: presence and wiring of the anchored liveness mechanisms (liveness itself is not decided)."""
 from engine import query as Q
+from . import common
 from engine.terms import show, subterms
 from engine.guards import Atom, Walker, field_path, chain, Inliner
 from .phase_gate import SM, self_field, view_cmp_atom, phase_atom, CHONKY_MSG
-from .c03 import find_sends, msg_variant, root_fn
+from .c03 import find_sends, msg_variant, root_fn, bft_bodies
 
 INPUT_MSG = "zksync_consensus_network::io::ConsensusInputMessage"
 
@@ -219,4 +220,66 @@ def rule_proposer(ctx):
     ctx.ob(R, "bounded proposal creation", okt, "create_proposal runs under ctx.with_timeout(cfg.view_timeout)" if okt else "proposal creation is not bounded by the view timeout", f.loc())
 
 
-RULES = [("C06.1", rule_main_loop), ("C06.2", rule_timeout_starter), ("C06.3", rule_bootstrap), ("C06.4", rule_catch_up), ("C06.5", rule_view_starter), ("C06.6", rule_proposer)]
+
+def rule_payload_cache_retention(ctx):
+    R = "C06.7"
+    ctx.rule(R, "payload retention: a cached proposal payload is dropped only when its block number is at or below the highest commit certificate held (already finalized) - the only removing operation on block_proposal_cache is retain(|k, _| k > high_commit_qc.header().number). A payload dropped earlier can belong to a block that still gets certified by a re-proposal, which then can never be stored: every later proposer waits for it forever")
+    from engine.guards import Inliner
+    REMOVERS = ("retain", "remove", "remove_entry", "clear", "pop_first", "pop_last", "split_off", "first_entry", "last_entry", "extract_if", "drain", "truncate")
+    sites = []
+    for f in bft_bodies(ctx):
+        T = ctx.T(f)
+        for c in T.calls():
+            if c["q"].startswith("std::collections::BTreeMap::") and c["q"].rsplit("::", 1)[1] in REMOVERS:
+                a = T.args_of(c)
+                if a and chain(a[0])[1][-1:] == ["block_proposal_cache"]:
+                    sites.append((f, c, a))
+    ctx.floor(R, "removing operations on block_proposal_cache", len(sites), 1)
+    for f, c, a in sites:
+        m = c["q"].rsplit("::", 1)[1]
+        T = ctx.T(f)
+        where = f.loc(c["t"].get("ln"))
+        if m != "retain" or len(a) < 2 or a[1][0] != "closure":
+            ctx.ob(R, "removal by %s" % m, False, "block_proposal_cache.%s(..) drops cached payloads without relating them to the finalized height" % m, where)
+            continue
+        g = ctx.F.by_qname.get(a[1][1], [None])[0]
+        caps = dict(zip([x["name"] for x in g.captures], a[1][2])) if g is not None else {}
+
+        def res(t):
+            if t[0] == "upvar":
+                return caps.get(t[1], t)
+            if t[0] in ("call",):
+                return ("call", t[1], tuple(res(x) for x in t[2]))
+            if t[0] == "field":
+                return ("field", res(t[1]), t[2])
+            if t[0] == "downcast":
+                return ("downcast", res(t[1]), t[2])
+            return t
+
+        def committed_number(t):
+            t = res(t)
+            return chain(t)[1][-2:] == ["header()", "number"] and any(x[0] == "field" and x[2] == "high_commit_qc" for x in subterms(t))
+
+        def is_key(t):
+            return t[0] == "param" and t[1] == 2
+
+        def mk(a_, b_):
+            if is_key(a_) and committed_number(b_):
+                return 1
+            if is_key(b_) and committed_number(a_):
+                return -1
+            return 0
+        if g is None:
+            ctx.ob(R, "retain predicate", False, "retain predicate not found", where)
+            continue
+        W = Walker(ctx, g, [Atom("cmp(k,committed)", "cmp", mk, ["<", "=", ">"])])
+        tr = {v: common.ret_truths(ctx, W, g, {"cmp(k,committed)": v}) for v in "<=>"}
+        if all(x and None not in x for x in tr.values()) and len(set(map(frozenset, tr.values()))) > 1:
+            ok = tr[">"] == {True}
+            ctx.ob(R, "retain predicate", ok, "retain keeps every payload above the highest commit certificate's block number (drops: %s)" % sorted(k for k, v in tr.items() if v == {False}) if ok else
+                   "block_proposal_cache.retain drops payloads of blocks above the finalized height (kept by k vs committed number: %s)" % {k: sorted(v) for k, v in tr.items()}, where)
+        else:
+            ctx.ob(R, "retain predicate", False, "block_proposal_cache.retain(..) does not compare the block number with the highest commit certificate's number: payloads of blocks that are not finalized can be dropped (predicate: %s)" % show(Inliner(ctx).ret_term(g))[:140], where)
+
+
+RULES = [("C06.7", rule_payload_cache_retention), ("C06.1", rule_main_loop), ("C06.2", rule_timeout_starter), ("C06.3", rule_bootstrap), ("C06.4", rule_catch_up), ("C06.5", rule_view_starter), ("C06.6", rule_proposer)]
